@@ -73,10 +73,12 @@ Theorem C06_sol_covers_span :
 Proof. exact sol_eval_covers. Qed.
 Print Assumptions C06_sol_covers_span.
 
+(* "clearly outside": beyond the 1e-12 slack of the range check (RANGE_TOL; after "fix: sol / sol_many accept times
+   within the segment lookup's slack": with a strict check sol(xend) failed for BDF's last sample, finding F25) *)
 Theorem C06_sol_outside_and_disabled :
   forall m n (S : solution (F:=R)) t,
     (forall segs st en, sol_segs S = Some segs -> t_span Rops segs = Some (st, en) ->
-       t < Rmin st en \/ Rmax st en < t -> sol_eval Rops m n S t = SolOutOfRange) /\
+       t < Rmin st en - RANGE_TOL Rops \/ Rmax st en + RANGE_TOL Rops < t -> sol_eval Rops m n S t = SolOutOfRange) /\
     (sol_segs S = None -> sol_eval Rops m n S t = SolNotEnabled).
 Proof. intros. split; [intros; eapply sol_eval_outside; eassumption|apply sol_eval_disabled]. Qed.
 Print Assumptions C06_sol_outside_and_disabled.
